@@ -109,12 +109,31 @@ def run_trees(run, pid, h, scen, tags, depth, cap, budget, label):
     return totals, summ
 
 
+def run_matecerts(run, pid, h, scen, randoms, lo, hi, budget, label, shorter=0):
+    """Mate announcements of lo..hi moves: the harness finds a proof / refutation certificate, TraceSearch checks it node by
+    node against Chess.tla and thereby decides the announcement (direction code -> spec with a checked witness)."""
+    d = R.trace_dir(pid + "-" + label)
+    args = ["matecert", "--out", d, "--shards", vcommon.NCPU, "--seed", vcommon.seed(), "--randoms", randoms, "--lo", lo, "--hi", hi, "--budget", budget]
+    if scen:
+        args += ["--scen", scen]
+    if shorter:
+        args += ["--claim-shorter", shorter]
+    summ = vcommon.run_harness(h, args)
+    files = sorted(glob.glob(os.path.join(d, "search*.ndjson")))
+    results = vcommon.validate_shards("TraceSearch", "TraceSearch.cfg", files, env_extra={"MAXMATE": "2"})
+    totals = judge(run, pid, results, "mcert")
+    shutil.rmtree(d, ignore_errors=True)
+    return totals, summ
+
+
 def replay_scenario(run, pid, replay, also=()):
     spec = json.load(open(replay))["replay"]
     h = vcommon.build_harness()
     path = os.path.join(vcommon.BUILD, "scen-replay-%d.json" % os.getpid())
     json.dump([{"tag": "replay", "cmd": spec["cmd"]}], open(path, "w"))
-    if spec.get("kind") == "tree":
+    if spec.get("kind") == "mcert":
+        run_matecerts(run, pid, h, path, 0, 1, 8, 1500000, "replay")
+    elif spec.get("kind") == "tree":
         run_trees(run, pid, h, path, "replay", spec.get("depth") or 3, 60000, 400000, "replay")
     else:
         run_expiry(run, pid, h, path, "replay", spec.get("depth") or 3, 100000, 400000, 3, "mate" if pid == "C11" else "replay", also)
@@ -296,13 +315,22 @@ def c11(tier, replay):
     if totals.get("mates", 0) == 0:
         raise ToolError("coverage hole: no mate scores in this run")
     run.cov["mate_lines_judged"] = totals.get("mates", 0)
+    # longer announcements (3..6 moves): decided through checked certificates; scenarios = the ones above plus random small
+    # endgames in which the mover has a forced mate in 3..6 (or the bare side is mated in 2..5), searched much deeper
+    t3, s3 = run_matecerts(run, "C11", h, scen, 70 if q else 1500, 3, 6, 250000 if q else 600000, "mcert")
+    run.cov["mate_certificates"] = {"announcements_decided_by_a_checked_certificate": t3.get("mcert_proofs", 0) + t3.get("mcert_refutations", 0),
+                                    "of_them_longer_than_3_moves": t3.get("mcert_beyond_3", 0), "certificate_nodes_checked_against_the_rules": t3.get("mcert_nodes", 0),
+                                    "no_certificate_within_the_caps": t3.get("mcert_none", 0), "positions_searched": s3.get("scenarios", 0)}
+    if t3.get("mcert_proofs", 0) < 5:
+        raise ToolError("coverage hole: fewer than 5 long mate announcements were decided by certificate")
     os.remove(scen)
     model_search(run, tier, 3)
     run.cov["rule"] = ("scenarios = random endgames (KQ, KR, KRR, KQ v KR, minor + pawns ...) filtered to those with a mate in one for the mover or where some "
                        "but not all moves allow a mate in one, plus unfiltered ones, plus the members of the TLC-enumerated families `mating` and `avoid` (K+Q / K+R near a bare king on the edge); search to depth 4 (5 thorough) under the virtual clock; TLC re-derives on "
                        "Chess.tla: the set of mating moves / safe moves, MateWithin(root, N) for every `score mate N` line, MatedWithin for the last line of "
                        "completed depths")
-    run.assumptions.append("mate claims are re-derived up to N = %d (larger N are counted but not judged)" % (2 if q else 3))
+    run.assumptions.append("mate claims are re-derived by brute force (MateWithin) up to N = %d on every line; the strongest claim of 3..6 moves of every deeply searched "
+                           "position is decided through a certificate checked by TLC; larger N are counted but not judged" % (2 if q else 3))
     return run.finish()
 
 
